@@ -27,7 +27,7 @@ type c23Result struct {
 }
 
 // c23FindingBoolTrailing is the known-findings id of that defect.
-const c23FindingBoolTrailing = "F12"
+const c23FindingBoolTrailing = "F71"
 
 func (r *c23Result) fail(format string, a ...any) {
 	if r.violation == "" {
